@@ -729,6 +729,14 @@ func GoNamed(name string, f func()) {
 	s.runThread(t, f)
 }
 
+// SelfName returns the name given to the running thread at creation ("" if none).
+func SelfName() string {
+	if cur == nil || cur.active == nil {
+		return ""
+	}
+	return cur.active.name
+}
+
 // Self returns the hierarchical id of the running thread ("" in pass-through mode).
 func Self() string {
 	if cur == nil || cur.active == nil {
